@@ -22,11 +22,6 @@ namespace Factory
 
 /-! ## `Finished` reports waiting in the factory's mailbox -/
 
-def finKeys (wid : Nat) : List FMsg → List Nat
-  | [] => []
-  | .finished w k :: r => if w == wid then k :: finKeys wid r else finKeys wid r
-  | _ :: r => finKeys wid r
-
 theorem finKeys_append (wid : Nat) (l1 l2 : List FMsg) : finKeys wid (l1 ++ l2) = finKeys wid l1 ++ finKeys wid l2 := by
   induction l1 with
   | nil => rfl
@@ -1776,24 +1771,6 @@ theorem j_advanceTo (t fuel : Nat) (w : W) (h : J w) : J (W.advanceTo t fuel w) 
 
 
 /-! ## Harness operations; the excluded histories -/
-
-/-- (F4) killing `aid` now would make a completion stale: it is alive, it is the worker of a pool
-slot, and a `Finished` report of that slot still waits in the factory's mailbox -/
-def W.staleKill (w : W) (aid : Nat) : Bool :=
-  match w.env.getActor aid with
-  | some a => a.alive && w.pool.any (fun p => p.actor == aid && !(finKeys p.wid w.inbox).isEmpty)
-  | none => false
-
-def Op.isStaleAt (w : W) : Op → Bool
-  | .kill aid => w.staleKill aid
-  | _ => false
-
-/-- no step of the run kills a worker incarnation whose completion report the factory has not
-processed yet — the exact, model-level form of the oracle's classifier `noStaleCompletion` -/
-def noStaleRun : W → List Step → Bool
-  | _, [] => true
-  | w, s :: rest =>
-    !(s.op.isStaleAt (W.advanceTo s.t0 (advanceFuel w s.t0) w)) && noStaleRun (w.stepOp s.op s.t0 s.tq s.te) rest
 
 theorem staleKill_false {w : W} {aid : Nat} (hs : w.staleKill aid = false) (hst : Core (fkOf w.inbox) w) :
     ∀ p ∈ w.pool, p.actor = aid → fkOf w.inbox p.wid = [] := by
